@@ -701,7 +701,7 @@ TRUSTED = [
     "timers are outputs only (the cluster model lets a timeout or heartbeat fire at any moment)",
 ]
 
-COQ_FILES = ["C11/Model.v", "C11/NodeProofs.v", "C11/Election.v", "C11/Props.v"]
+COQ_FILES = ["C11/Model.v", "C11/NodeProofs.v", "C11/Election.v", "C11/Refute.v", "C11/Props.v"]
 
 
 class SmallShards:
@@ -722,7 +722,8 @@ class SmallShards:
 def run(ctx):
     ctx.prove(COQ_FILES, allowed_axioms=(), trusted_base=TRUSTED)
     stats = []
-    for fam, k, shard in zip(FAMILIES, [ctx.n(300, 9000), ctx.n(32, 700), ctx.n(12, 240)], [50, 6, 4]):
+    for fam, k, shard in zip(FAMILIES, [ctx.n(300, 9000), ctx.n(32, 700), ctx.n(12, 240)], [100, 8, 6]):
+        fam.parallel = not ctx.quick          # the quick tier's implementation runs take ~2 s in total
         stats.append(run_family(SmallShards(ctx, shard), fam, k))
         ctx.log(f"family {fam.name}: {stats[-1]['cases']} cases, mismatches={stats[-1]['mismatches']}, "
                 f"oracle failures={stats[-1]['oracle_failures']} (known {stats[-1]['known']}), non-trivial={stats[-1]['distinct_nontrivial']}")
